@@ -347,7 +347,10 @@ class World:
                     if self.mode == 'bytes':
                         p.dataReceived(m.rawMessage)
                     else:
-                        self.bus.sendMessage(m)
+                        # what BusProtocol.rawDBusMessageReceived hands to the bus (the filter for the bus's own
+                        # name sits in Bus.messageReceived, not in Bus.sendMessage)
+                        m.sender = ':1.%d' % c
+                        self.bus.messageReceived(p, m)
                     return self.receivers(m, dest)
                 if self.mode == 'bytes':
                     m = self.call_msg('GetNameOwner', 's', [dest])
@@ -453,9 +456,9 @@ class World:
         qs = self.queues()
         names = ';'.join('%s=%s' % (n, '.'.join(str(k) for k in qs[n])) for n in sorted(qs, key=str))
         cl = []
-        for k in self.connected():
-            t = self.protos[k].busNames
-            cl.append('%d=%s' % (k, ','.join('%s:%d' % (self.nidx(n), 1 if b else 0) for n, b in t.items())))
+        for pr in sorted(self.bus.clients.values(), key=self.kof):      # the objects the bus itself has registered
+            t = getattr(pr, 'busNames', None) or {}
+            cl.append('%d=%s' % (self.kof(pr), ','.join('%s:%d' % (self.nidx(n), 1 if b else 0) for n, b in t.items())))
         return names + '#' + ';'.join(cl)
 
     def lookup(self, n):
@@ -1299,17 +1302,16 @@ def run_pair_stream(ctx):
         ctx.stat('pair-shape:' + shape)
         for j, (r, h) in enumerate(((ra, ha), (rb, hb))):
             inp = {'path': 'bytes', 'names': NAMES, 'pair': [ha, hb], 'schedule': sched, 'judged': j}
+            # Findings of this stream carry the PAIR as input and a key of their own class (`two-buses-...`): state that
+            # the library keeps outside the Bus object makes single histories fail only because of what ran before them
+            # in the process, and a replay of such a single history in a fresh process shows nothing (audit M6); the pair
+            # replays.  An ordinary defect is reported by the other streams under the plain key as well.
             if r.verdict is not None:
                 _, key, what, obs, exp = r.verdict
-                # does the history fail on a bus that is alone in the process?  then it is an ordinary finding
-                alone = run_fresh('bytes', h, full=True)
-                if alone.verdict is not None and alone.verdict[1] == key:
-                    report(ctx, 'bytes', h, alone.verdict)
-                else:
-                    ctx.violation(key, what + ' (two buses in one process: the same history alone is judged right)',
-                                  inp=inp, observed=obs, expected=exp)
+                ctx.violation('two-buses-' + key, what + ' (one of two buses running in one process)',
+                              inp=inp, observed=obs, expected=exp)
             for k2, key, what, obs, exp in r.extras:
-                ctx.violation(key, what + ' (after the bus raised; two buses in one process)', inp=inp,
+                ctx.violation('two-buses-' + key, what + ' (after the bus raised; two buses in one process)', inp=inp,
                               observed=obs, expected=exp)
             m = out[2 * i + j] if out else None
             if m is not None and m != ' | '.join(r.fields):
@@ -1726,7 +1728,7 @@ def replay(ctx, data):
         out = ctx.model(['h ' + ' '.join(ha), 'h ' + ' '.join(hb)])
         for j, r in enumerate((ra, rb)):
             for v in ([r.verdict] if r.verdict else []) + r.extras:
-                ctx.violation(v[1], v[2], inp=inp, observed=v[3], expected=v[4])
+                ctx.violation('two-buses-' + v[1], v[2], inp=inp, observed=v[3], expected=v[4])
             if out is not None and out[j] != ' | '.join(r.fields):
                 ctx.disagree('replay', inp, out[j], ' | '.join(r.fields))
         return
